@@ -326,12 +326,11 @@ impl <T: ArrayElement> ArrayManipulate<T> for Array<T> {
             }
 
             let mut arrays = self.split_axis(axis)?;
-            let self_rem = self.get_shape()?.remove_at(axis);
-            let self_rem_len = self_rem.into_iter().product::<usize>();
+            let new_axis_len = self.get_shape()?[axis] + values.get_shape()?[axis];
             let values = values.split_axis(axis)?;
             arrays.extend_from_slice(&values);
             let array = arrays.into_iter().flatten().collect::<Self>();
-            let new_shape = self.get_shape()?.update_at(axis, array.len()? / self_rem_len);
+            let new_shape = self.get_shape()?.update_at(axis, new_axis_len);
             let tmp_shape = new_shape.clone().swap_ext(0, axis);
             let transpose_shape = (1..self.ndim()?.to_isize()).collect::<Vec<isize>>().insert_at(axis, 0);
             array.reshape(&tmp_shape).transpose(Some(transpose_shape)).reshape(&new_shape)
